@@ -355,6 +355,44 @@ fn relations(run: &mut Run, only: Option<&str>) {
                         }
                     }
                 }
+                // mixed with_mods flags: the attribute given with with_mods=true comes back unchanged
+                // at every rate, while the windows of the OTHER attribute still scale with 1/rate
+                for (wa, wo) in [(true, false), (false, true)] {
+                    let mixed = |rate: f64| {
+                        let b = BeatmapAttributesBuilder::new()
+                            .mode(mode_of(mode), conv)
+                            .ar(v, wa)
+                            .od(v, wo)
+                            .clock_rate(rate);
+                        (b.build(), b.hit_windows())
+                    };
+                    let (_, h1) = mixed(1.0);
+                    for r in [0.5, 0.75, 1.5, 2.0] {
+                        let (a, h) = mixed(r);
+                        let vf = f64::from(v);
+                        let mut ok = true;
+                        if wa {
+                            ok &= close(a.ar, vf, 1e-9);
+                            if mode != 3 {
+                                ok &= close(h.od_great * r, h1.od_great, 1e-12);
+                                ok &= h.od_ok.zip(h1.od_ok).map_or(true, |(x, y)| close(x * r, y, 1e-12));
+                                ok &= h.od_meh.zip(h1.od_meh).map_or(true, |(x, y)| close(x * r, y, 1e-12));
+                            }
+                        } else {
+                            ok &= close(a.od, vf, 1e-9);
+                            ok &= close(h.ar * r, h1.ar, 1e-12);
+                        }
+                        if !ok {
+                            run.fail(
+                                "oracle:mixed-with-mods-flags",
+                                "",
+                                &id,
+                                format!("ar({v:?}, {wa}) od({v:?}, {wo}): rate 1 {h1:?}; rate {r} {h:?} attrs ar {:?} od {:?}", a.ar, a.od),
+                                format!("mode {} convert {conv} value {v:?} ar with_mods {wa} od with_mods {wo} rate {r}", mode_name(mode)),
+                            );
+                        }
+                    }
+                }
                 // HR / EZ ordering
                 if (0.0..=10.0).contains(&v) {
                     for r in [0.75, 1.0, 1.5] {
